@@ -19,6 +19,7 @@ type c04Call struct {
 	TimeoutMs int    `json:"timeout_ms"`
 	Stream    bool   `json:"stream_response"`
 	ReadBytes int    `json:"read_bytes"` // -1: to EOF
+	Release   string `json:"stream_released_by,omitempty"` // close (CloseBodyStream) | release (ReleaseResponse only) | reset (Response.Reset)
 	GapMs     int    `json:"gap_ms"`
 	Act       srvAction `json:"server"`
 }
@@ -28,6 +29,7 @@ type c04Plan struct {
 	MaxConns int         `json:"max_conns"`
 	ReadBuf  int         `json:"read_buffer_size"`
 	MaxBody  int         `json:"max_response_body_size"`
+	WaitMs   int         `json:"max_conn_wait_timeout_ms"`
 	Callers  [][]c04Call `json:"callers"`
 }
 
@@ -53,7 +55,7 @@ func genSrvAction(e *Env) srvAction {
 }
 
 func scenC04(e *Env) func() {
-	p := &c04Plan{Client: Pick(e, "host", "host", "client", "pipeline"), MaxConns: Pick(e, 1, 1, 2, 3), ReadBuf: Pick(e, 0, 0, 512, 8192), MaxBody: Pick(e, 0, 0, 0, 3000)}
+	p := &c04Plan{Client: Pick(e, "host", "host", "client", "pipeline"), MaxConns: Pick(e, 1, 1, 2, 3), ReadBuf: Pick(e, 0, 0, 512, 8192), MaxBody: Pick(e, 0, 0, 0, 3000), WaitMs: Pick(e, 0, 0, 50, 3000, 60000)}
 	ncallers := e.Range(1, 5)
 	for ci := 0; ci < ncallers; ci++ {
 		var calls []c04Call
@@ -63,6 +65,7 @@ func scenC04(e *Env) func() {
 			if p.Client != "pipeline" && e.Chance(45) {
 				c.Stream = true
 				c.ReadBytes = Pick(e, -1, 0, 1, 5, 50, 500)
+				c.Release = Pick(e, "close", "close", "release", "reset")
 			}
 			calls = append(calls, c)
 		}
@@ -75,7 +78,7 @@ func scenC04(e *Env) func() {
 		// the body must exceed what the client prefetches before Do returns:
 		// MaxResponseBodySize when set, 8 KiB otherwise
 		p.MaxBody = Pick(e, 100, 100, 0)
-		first := c04Call{ID: "e-0", Method: Pick(e, "GET", "POST"), API: "do", Stream: true, ReadBytes: Pick(e, 0, 1, 5, 50),
+		first := c04Call{ID: "e-0", Method: Pick(e, "GET", "POST"), API: "do", Stream: true, ReadBytes: Pick(e, 0, 1, 5, 50), Release: Pick(e, "close", "release", "reset"),
 			Act: srvAction{Status: 200, BodyLen: Pick(e, 400, 1000, 3000), Framing: "cl", TailLen: Pick(e, 80, 100, 120), TailMs: Pick(e, 100, 500), FakeTail: true}}
 		if p.MaxBody == 0 {
 			first.Act.BodyLen = Pick(e, 9000, 12000)
@@ -110,9 +113,9 @@ func c04Run(e *Env, p *c04Plan) {
 	var cl doer
 	switch p.Client {
 	case "host":
-		cl = &fasthttp.HostClient{Addr: "10.0.0.2:80", Dial: dial, MaxConns: p.MaxConns, ReadBufferSize: p.ReadBuf, MaxResponseBodySize: p.MaxBody, MaxIdleConnDuration: 5 * time.Second, ReadTimeout: 2 * time.Minute}
+		cl = &fasthttp.HostClient{Addr: "10.0.0.2:80", Dial: dial, MaxConns: p.MaxConns, ReadBufferSize: p.ReadBuf, MaxResponseBodySize: p.MaxBody, MaxIdleConnDuration: 5 * time.Second, ReadTimeout: 2 * time.Minute, MaxConnWaitTimeout: time.Duration(p.WaitMs) * time.Millisecond}
 	case "client":
-		cl = &fasthttp.Client{Dial: dial, MaxConnsPerHost: p.MaxConns, ReadBufferSize: p.ReadBuf, MaxResponseBodySize: p.MaxBody, MaxIdleConnDuration: 5 * time.Second, ReadTimeout: 2 * time.Minute}
+		cl = &fasthttp.Client{Dial: dial, MaxConnsPerHost: p.MaxConns, ReadBufferSize: p.ReadBuf, MaxResponseBodySize: p.MaxBody, MaxIdleConnDuration: 5 * time.Second, ReadTimeout: 2 * time.Minute, MaxConnWaitTimeout: time.Duration(p.WaitMs) * time.Millisecond}
 	case "pipeline":
 		cl = &fasthttp.PipelineClient{Addr: "10.0.0.2:80", Dial: dial, MaxConns: p.MaxConns, ReadBufferSize: p.ReadBuf, MaxPendingRequests: 4, ReadTimeout: 2 * time.Minute, Logger: nullLogger{}}
 	}
@@ -185,7 +188,15 @@ func c04Call1(e *Env, cl interface {
 				rerr = er
 			}
 		}
-		resp.CloseBodyStream()
+		// the three documented ways of letting go of a streamed response
+		switch c.Release {
+		case "release":
+			fasthttp.ReleaseResponse(resp)
+		case "reset":
+			resp.Reset()
+		default:
+			resp.CloseBodyStream()
+		}
 		if !bytes.HasPrefix(want, got) {
 			e.Violation("crossed/body-"+ctxs, "call %s: streamed body bytes are not a prefix of the body the server produced for it (first difference at %d of %d read)", c.ID, firstDiff(got, want), len(got))
 			return
